@@ -181,9 +181,12 @@ def consistency_failures(prog, steps, only_steps=None):
                 lr = late_read(steps[ks]["events"], run, prev_nodes_of(steps, ks)) if run else None
                 known = "F1-late-read" if lr is not None else None
                 if known is None and run:
-                    known = taint_map(steps[ks]["events"], prev_nodes_of(steps, ks)).get((run["name"], run["start"]))
-                    if known != "F1-late-read":
-                        known = None            # tracked-only computations: only a (transitive) late subscription can explain it
+                    # a program name can denote several live nodes (a computation created through run_in under another owner is
+                    # created again when its creator re-runs): any run carrying that name in that statement may be the one the
+                    # snapshot shows
+                    tm = taint_map(steps[ks]["events"], prev_nodes_of(steps, ks))
+                    keys = [tm.get((r["name"], r["start"])) for r in run_spans(steps[ks]["events"]) if r["name"] == name]
+                    known = "F1-late-read" if "F1-late-read" in keys else None   # tracked-only computations: only a (transitive) late subscription can explain it
                 fails.append({"oracle": "consistency", "step": k, "node": name, "kind": kind, "holds": have,
                               "fresh_value": fresh, "dirty": n["dirty"], "known": known, "late_read_of": lr})
     return fails
@@ -407,6 +410,12 @@ def glitch_failures(prog, steps):
                 if x in comps and comps[x][0] in ("memo", "selector"):
                     n = nodes.get(x)
                     if n and n["alive"] and n["value"] is not None and n["value"] != v:
+                        # the name may denote a NEW node at the end of the statement (its owner re-ran and created it again after this
+                        # read); the instance that was read is then the old one, and an instance without tracked inputs is never out of
+                        # date in the sense of the property ("one whose tracked inputs changed since it was computed")
+                        recreated = any(q["name"] == x and q["start"] > pos and dq > 0 for q, dq in zip(spans, depths))
+                        if recreated and not [d for d in prev.get(x, {}).get("deps", []) if d != "?"]:
+                            continue
                         if taints is None:
                             taints = taint_map(st["events"], prev)
                         known = taints.get((r["name"], r["start"]))
